@@ -124,7 +124,94 @@ func (e *c20Env) intMetric(name string) (int64, bool) {
 	return out, found
 }
 
+
+// c20Rename: a program file is renamed between lines, several times (the number of loaded programs
+// is the same before and after each reload, their names are not), with a bystander program beside
+// it.  Every line sent after a reload is started by exactly one VM of the renamed program and by
+// the bystander's.
+func c20Rename(renames, per int) (bool, string) {
+	dir, err := os.MkdirTemp("", "c20mv")
+	if err != nil {
+		return true, "skip"
+	}
+	defer os.RemoveAll(dir)
+	lines := make(chan *logline.LogLine)
+	store := metrics.NewStore()
+	var wg sync.WaitGroup
+	var mu sync.Mutex
+	starts := map[string]int{}
+	vm.VerifLineHook = func(_ *vm.VM, l *logline.LogLine) { mu.Lock(); starts[l.Line]++; mu.Unlock() }
+	defer func() { vm.VerifLineHook = nil }()
+	rt, err := runtime.New(lines, &wg, dir, store)
+	if err != nil {
+		return false, "runtime.New: " + err.Error()
+	}
+	src := "counter seen\n/^/ {\n  seen++\n}\n"
+	_ = os.WriteFile(filepath.Join(dir, "zz-bystander.mtail"), []byte("counter bys\n/^/ {\n  bys++\n}\n"), 0o644)
+	name := "p0.mtail"
+	_ = os.WriteFile(filepath.Join(dir, name), []byte(src), 0o644)
+	_ = rt.LoadAllPrograms()
+	sent := 0
+	send := func() {
+		for i := 0; i < per; i++ {
+			sent++
+			text := strconv.Itoa(sent)
+			lines <- logline.New(context.Background(), "log", text)
+			// (the dispatcher hands a line to every VM before it lets a load or unload in, so nothing
+			// can overtake it; the wait only spares the lines that no VM takes a longer one at the end)
+			deadline := time.Now().Add(300 * time.Millisecond)
+			for time.Now().Before(deadline) {
+				mu.Lock()
+				c := starts[text]
+				mu.Unlock()
+				if c >= 2 {
+					break
+				}
+				time.Sleep(200 * time.Microsecond)
+			}
+		}
+	}
+	send()
+	for k := 1; k <= renames; k++ {
+		next := fmt.Sprintf("p%d.mtail", k)
+		_ = os.Rename(filepath.Join(dir, name), filepath.Join(dir, next))
+		name = next
+		_ = rt.LoadAllPrograms()
+		send()
+	}
+	time.Sleep(5 * time.Millisecond)
+	close(lines)
+	done := make(chan struct{})
+	go func() { wg.Wait(); close(done) }()
+	select {
+	case <-done:
+	case <-time.After(3 * time.Second):
+	}
+	mu.Lock()
+	defer mu.Unlock()
+	for i := 1; i <= sent; i++ {
+		if c := starts[strconv.Itoa(i)]; c != 2 {
+			return false, fmt.Sprintf("line %d of %d (%d lines after each of %d renames of the program file): started by %d VMs, the renamed program and the bystander make 2", i, sent, per, renames, c)
+		}
+	}
+	return true, ""
+}
+
 func c20Run(r *runCtx, id string, f []string) {
+	if f[0] == "rename" {
+		k, _ := strconv.Atoi(f[1])
+		per, _ := strconv.Atoi(f[2])
+		ok, note := c20Rename(k, per)
+		r.stat("rename")
+		r.obs(id, "-")
+		if !ok {
+			r.replay(id, f...)
+			r.fail(id, "line-started-by-no-version", "%s", note)
+		} else {
+			r.ok(id)
+		}
+		return
+	}
 	dir, err := os.MkdirTemp("", "c20")
 	if err != nil {
 		panic(err)
@@ -366,6 +453,9 @@ func c20Run(r *runCtx, id string, f []string) {
 func init() {
 	props["C20"] = &propImpl{
 		gen: func(g *genCtx) {
+			g.emit("rename", "1", "2")
+			g.emit("rename", "3", "1")
+			g.emit("rename", "4", "3")
 			g.emit("sched", "w:1;load;l:1;l:2;l:3;sync")
 			g.emit("sched", "w:1;load;l:1;sync;w:2;load;l:2;l:3;sync")
 			// the old VM is still inside line 2 when the program is reloaded and line 3 arrives
